@@ -81,6 +81,12 @@ theorem proj_foldl_callCancel {cs orders pre} (k : Nat) (l : List Nat) : ∀ {m 
   | cons a l ih => exact fun h => ih (proj_callCancel h k a)
 
 
+theorem proj_foldl_callCancel2 {cs orders pre} (l : List (Nat × Nat)) : ∀ {m : MSt}, Proj cs orders pre m →
+    Proj cs orders pre (l.foldl (fun mm ki => callCancel mm ki.1 ki.2) m) := by
+  induction l with
+  | nil => exact fun h => h
+  | cons a l ih => exact fun h => ih (proj_callCancel h a.1 a.2)
+
 theorem proj_congr {cs orders pre} {m m' : MSt} (h : Proj cs orders pre m) (hs : m'.sets = m.sets) : Proj cs orders pre m' := by
   intro k c hc; rw [hs]; exact h k c hc
 
@@ -162,7 +168,7 @@ theorem proj_mstep {cs orders pre m e m'} (h : Proj cs orders pre m) (hs : mstep
     simp only [mstep] at hs
     split at hs
     · split at hs
-      · cases hs; exact proj_congr h rfl
+      · cases hs; exact proj_foldl_callCancel2 _ (proj_congr h rfl)
       · cases hs
         exact proj_congr (proj_cancelIfSafe (proj_congr h (m' := { m with expectMore := false }) rfl)) rfl
     · cases hs
@@ -209,6 +215,25 @@ theorem callCancel_mfields (m : MSt) (k i : Nat) :
   unfold callCancel
   exact ⟨(cancelIfSafe_mfields _).1, (cancelIfSafe_mfields _).2.1, (cancelIfSafe_mfields _).2.2.1,
     (cancelIfSafe_mfields _).2.2.2.1, (cancelIfSafe_mfields _).2.2.2.2.1⟩
+
+theorem callCancel_mcleaned (m : MSt) (k i : Nat) : (callCancel m k i).mcleaned = m.mcleaned := by
+  unfold callCancel cancelIfSafe; split <;> simp [cancelWorkers]
+
+theorem foldl2_callCancel_frame (l : List (Nat × Nat)) : ∀ (m : MSt),
+    (∀ k', ((l.foldl (fun mm ki => callCancel mm ki.1 ki.2) m).sets k').main = (m.sets k').main) ∧
+    (l.foldl (fun mm ki => callCancel mm ki.1 ki.2) m).joined = m.joined ∧ (l.foldl (fun mm ki => callCancel mm ki.1 ki.2) m).results = m.results ∧
+    (l.foldl (fun mm ki => callCancel mm ki.1 ki.2) m).retErr = m.retErr ∧ (l.foldl (fun mm ki => callCancel mm ki.1 ki.2) m).ret = m.ret ∧
+    (l.foldl (fun mm ki => callCancel mm ki.1 ki.2) m).mcleaned = m.mcleaned ∧
+    (l.foldl (fun mm ki => callCancel mm ki.1 ki.2) m).expectMore = m.expectMore := by
+  induction l with
+  | nil => intro m; exact ⟨fun _ => rfl, rfl, rfl, rfl, rfl, rfl, rfl⟩
+  | cons a l ih =>
+    intro m
+    simp only [List.foldl_cons]
+    obtain ⟨i1, i2, i3, i4, i5, i6, i7⟩ := ih (callCancel m a.1 a.2)
+    obtain ⟨c1, c2, c3, c4, c5⟩ := callCancel_mfields m a.1 a.2
+    exact ⟨fun k' => (i1 k').trans (callCancel_frame m a.1 a.2 k').2.1, i2.trans c1, i3.trans c2, i4.trans c3, i5.trans c4,
+      i6.trans (callCancel_mcleaned m a.1 a.2), i7.trans c5⟩
 
 theorem foldl_callCancel_frame (k : Nat) (l : List Nat) : ∀ (m : MSt),
     (∀ k', ((l.foldl (fun mm i => callCancel mm k i) m).sets k').main = (m.sets k').main) ∧
@@ -395,9 +420,12 @@ theorem minv_mstep {cs m e m'} (h : MInv cs m) (hs : mstep cs m e = some m') : M
       split at hs
       · rename_i e0 hre
         cases hs
-        refine ⟨a1, a2, a3, a4, a5, a6, ?_, ?_⟩
-        · intro rs hr; cases hr
-        · intro e he; cases he; exact hre
+        obtain ⟨f1, f2, f3, f4, f5, _, _⟩ := foldl2_callCancel_frame m.results { m with ret := some (.error e0), mcleaned := m.results }
+        have hX : MInv cs { m with ret := some (.error e0), mcleaned := m.results } := by
+          refine ⟨a1, a2, a3, a4, a5, a6, ?_, ?_⟩
+          · intro rs hr; cases hr
+          · intro e he; cases he; exact hre
+        exact minv_frame hX (fun k' _ => f1 k') f2 f3 f4 f5
       · rename_i hre
         cases hs
         obtain ⟨f1, f2, f3, f4, f5, f6⟩ := cancelIfSafe_mfields { m with expectMore := false }
@@ -450,22 +478,5 @@ theorem multi_returns_err {cs orders pre evs m k e} (hr : mrun cs (minit cs orde
   have h := minv_reach hr
   have h1 := h.err_some k e (h.ret_err (k, e) hret)
   exact ⟨h.joined_lt k h1.1, h1.2⟩
-
-/-- **partial** cleanup theorem for the multi-set variant: when it returns results, every
-successful result of every set that is over is returned or was cleaned up exactly once. -/
-theorem multi_cleanup_partial {cs orders pre evs m rs} (hr : mrun cs (minit cs orders pre) evs = some m)
-    (hret : m.ret = some (.ok rs)) (k : Nat) (c : Cfg) (hc : cs[k]? = some c) (hfin : final c (m.sets k) = true) :
-    ∀ i, i < c.n → (i, Res.ok) ∈ (m.sets k).fin →
-      (((k, i) ∈ rs ∧ i ∉ (m.sets k).cleaned) ∨ ((k, i) ∉ rs ∧ (m.sets k).cleaned.count i = 1)) := by
-  obtain ⟨evs', hr'⟩ := multi_projection hr k c hc
-  have hk : k < cs.length := by
-    rcases Nat.lt_or_ge k cs.length with h | h
-    · exact h
-    · simp [List.getElem?_eq_none h] at hc
-  obtain ⟨rk, hrk, hmem⟩ := (multi_returns_ok hr hret).1 k hk
-  intro i hi hok
-  have := cleanup_exactly_once hr' hfin i hi hok
-  simp only [results, hrk] at this
-  rw [hmem i]; exact this
 
 end PfC11
